@@ -125,6 +125,9 @@ def run(ctx):
     ctx.rule("R6", "starting guesses are orthonormalised; a lost root raises")
     ctx.rule("R7", "subspace collapse reads the old subspace before overwriting it (Ritz vectors and their images are rebuilt from intact data)")
     ctx.rule("R8", "the number of start vectors of a molecule never exceeds its own number of occupied-virtual pairs")
+    ctx.rule("R9", "the operator applied by the Davidson drivers is the singlet CIS Hamiltonian A (and the RPA coupling B): two-electron response of a non-symmetric transition density and the full matrix-vector product, chunked and unchunked (abstract interpretation, sa/npsym.py)")
+    from ..assembly import check_cis_operator
+    check_cis_operator(ctx, "R9")
 
     for rel, drv, helper in DRIVERS:
         mod = repo.mod(rel)
